@@ -714,10 +714,82 @@ def r_scalar_constants(c):
             "than the expression")
 
 
+def r_einsum_spec(c):
+    """the subscript string re-synthesised for an Einsum (utils.get_einsum_specification,
+    emitted verbatim by map_einsum) lists the OUTPUT letters by output axis number:
+    the letter of EinsumElementwiseAxis(i) for i = 0, 1, ...  The table of letters is
+    filled in order of first appearance in the operands; reading the output off that
+    table's own order is right for 'ij,jk->ik' and wrong for 'ij,jk->ki'."""
+    m = c.model
+    fd0 = m.func("pytato.utils.get_einsum_specification")
+    where = m.loc(m.module_of(fd0), fd0)
+    fd = m.normal(fd0)
+    outs = []
+    for r in ast.walk(fd):
+        if not isinstance(r, ast.Return) or r.value is None:
+            continue
+        v = r.value
+        if isinstance(v, ast.JoinedStr):
+            for i, part in enumerate(v.values[:-1]):
+                if isinstance(part, ast.Constant) and str(part.value).endswith("->") \
+                        and isinstance(v.values[i + 1], ast.FormattedValue):
+                    outs.append(v.values[i + 1].value)
+        elif isinstance(v, ast.BinOp) and isinstance(v.op, ast.Add):
+            # a + "->" + b
+            parts = []
+
+            def flat(e):
+                if isinstance(e, ast.BinOp) and isinstance(e.op, ast.Add):
+                    flat(e.left)
+                    flat(e.right)
+                else:
+                    parts.append(e)
+            flat(v)
+            for i, part in enumerate(parts[:-1]):
+                if isinstance(part, ast.Constant) and str(part.value).endswith("->"):
+                    outs.append(parts[i + 1])
+    if len(outs) != 1:
+        raise AnalysisError("anchor vanished: the output part (after '->') of the string "
+                            "get_einsum_specification returns")
+    o = outs[0]
+    if not (isinstance(o, ast.Call) and isinstance(o.func, ast.Attribute)
+            and o.func.attr == "join" and len(o.args) == 1
+            and isinstance(o.args[0], (ast.GeneratorExp, ast.ListComp))):
+        raise AnalysisError("get_einsum_specification: the output letters are not a "
+                            "''.join(<comprehension>)")
+    g = o.args[0]
+    ep = fd.args.args[0].arg
+    it = g.generators[0].iter
+    its = ast.unparse(it)
+    by_axis = len(g.generators) == 1 and not g.generators[0].ifs \
+        and isinstance(g.generators[0].target, ast.Name) \
+        and its in (f"range({ep}.ndim)", f"range(len({ep}.shape))") \
+        and isinstance(g.elt, ast.Subscript) \
+        and ast.unparse(g.elt.slice) == f"EinsumElementwiseAxis({g.generators[0].target.id})"
+    base = it.func.value if (isinstance(it, ast.Call) and isinstance(it.func, ast.Attribute)
+                             and it.func.attr in ("items", "keys", "values")
+                             and not it.args) else it
+    dicts = {t.id for a in ast.walk(fd) if isinstance(a, (ast.Assign, ast.AnnAssign))
+             and a.value is not None and (isinstance(a.value, ast.Dict) or (
+                 isinstance(a.value, ast.Call) and ast.unparse(a.value.func) == "dict"))
+             for t in (a.targets if isinstance(a, ast.Assign) else [a.target])
+             if isinstance(t, ast.Name)}
+    insertion = isinstance(base, ast.Name) and base.id in dicts
+    if not by_axis and not insertion:
+        raise AnalysisError("get_einsum_specification: cannot tell in which order "
+                            f"`{ast.unparse(g)[:90]}` lists the output letters")
+    c.check(by_axis, "R14-ARGS", "utils.get_einsum_specification",
+            "output-letters-by-output-axis-number", where,
+            f"the output part of the einsum string is `{ast.unparse(g)[:100]}`: the letters "
+            "come in the order the table was filled (first appearance in the operands), "
+            "not by output axis number: 'ij,jk->ki' is re-synthesised as 'ij,jk->ik' and "
+            "the generated program returns the transposed result")
+
+
 SPEC = Spec(
     prop="C14",
     rules=[r_namespace, r_tables, r_consume, r_args, r_unsupported, r_operator_inventory, r_intclass, r_creator_dtype,
-           r_scalar_constants],
+           r_scalar_constants, r_einsum_spec],
     floors={"R14-NAMESPACE": 31, "R14-TABLES": 48, "R14-CONSUME": 20, "R14-ARGS": 9,
             "R14-UNSUPPORTED": 5},
     explanation=(
@@ -737,7 +809,7 @@ SPEC = Spec(
         "list, kw_defaults and expected_arguments come from one collection; only "
         "keyword-only parameters. R14-UNSUPPORTED: unsupported kinds raise. "
         "R14-CONSUME also: every array-creating emission (zeros, ones, full, *_like) spells out dtype=expr.dtype unless guarded by a test for the default float dtype. R14-UNSUPPORTED also: integer tests on shape components and indices use INT_CLASSES. "
-        "R14-TABLES also (case table of the scalar-operand emitter): a scalar reaches ast.Constant, i.e. its repr, only where it is known to be finite and not negative; non-finite scalars are built from their string form, negative ones get an explicit unary minus (the one use of a Python operator outside the table that is admitted: its operand is a constant)."),
+        "R14-TABLES also (case table of the scalar-operand emitter): a scalar reaches ast.Constant, i.e. its repr, only where it is known to be finite and not negative; non-finite scalars are built from their string form, negative ones get an explicit unary minus (the one use of a Python operator outside the table that is admitted: its operand is a constant). R14-ARGS also: the einsum string emitted for an Einsum lists its output letters by output axis number (EinsumElementwiseAxis(i) for i in range(ndim)), never in the order the table of letters was filled."),
     not_decided=(
         "That the generated function returns NumPy's values (needs running it); "
         "slice re-synthesis correctness; dtype preservation through dropped casts; "
